@@ -47,6 +47,26 @@ class _Cexptrk_Potential_Function(object):
       raise Potential_Form_Exception(msg)
       
 
+  def _parse(self):
+    if not self._expression:
+      try:
+        self._expression = cexprtk.Expression(self._potential_form_tuple.expression, self._local_symbol_table)
+      except cexprtk.ParseException as pe:
+        raise Potential_Form_Exception("mathematical expression couldn't be parsed {}".format(pe))
+
+  def parse(self):
+    """Parse the expression now (once every function it may call has been registered), so that a formula
+    which is never evaluated does not go unchecked."""
+    try:
+      self._parse()
+    except Potential_Form_Exception as e:
+      raise Potential_Form_Exception(self._error_message(e.args[0]))
+
+  def _error_message(self, msg):
+    sig = ",".join(self._potential_form_tuple.signature.parameter_names)
+    sig = "{label}({sig})".format(label = self._potential_form_tuple.signature.label, sig = sig)
+    return "In potential-form '{sig} = {expression}': {msg}".format(msg = msg, sig = sig, expression = self._potential_form_tuple.expression)
+
   def __call__(self, *args):
     parameter_names = self._potential_form_tuple.signature.parameter_names
     if len(args) != len(parameter_names):
@@ -61,11 +81,7 @@ class _Cexptrk_Potential_Function(object):
       self._local_symbol_table.variables[pn] = v
 
     try:
-      if not self._expression:
-        try:
-          self._expression = cexprtk.Expression(self._potential_form_tuple.expression, self._local_symbol_table)
-        except cexprtk.ParseException as pe:
-          raise Potential_Form_Exception("mathematical expression couldn't be parsed {}".format(pe))
+      self._parse()
       try:
         retval = self._expression()
         if retval != retval:
@@ -77,14 +93,7 @@ class _Cexptrk_Potential_Function(object):
           self._local_symbol_table.variables[pn] = v
       return retval
     except Potential_Form_Exception as e:
-      msg = e.args[0]
-      sig = ",".join(self._potential_form_tuple.signature.parameter_names)
-      sig = "{label}({sig})".format(label = self._potential_form_tuple.signature.label, sig = sig)
-      msg = "In potential-form '{sig} = {expression}': {msg}".format(
-        msg = msg, 
-        sig = sig, 
-        expression = self._potential_form_tuple.expression)
-      raise Potential_Form_Exception(msg)
+      raise Potential_Form_Exception(self._error_message(e.args[0]))
       
 
 
